@@ -11,6 +11,13 @@
                   hops: [{name, pype}…]}
                  → {loaded: [{file: str} | {custom: [loader, name, parent|null]}…], err: str|null,
                     sysPath: [str…]}   (sysPath = entries appended, in order)
+   resolve.session {cwd, builtin, files, dirs, noCache: bool,
+                    ops: [["req", obj, name, parent|null] | ["fs", {files, dirs}] | ["clear"] | ["noCache", b]
+                          | ["pyDir", dir]…]}
+                 → {results: [{ok: str} | {err: str}, …each with clean: bool, cold: {ok}|{err},
+                              sysPath: [str…] (entries appended so far, normalised, first occurrence only)]}
+                 names may contain `..` segments here: the file-system predicate walks them (a `..` needs the
+                 directory it leaves to exist) and results are normalised like `Path.resolve()`.
 -/
 import Lean.Data.Json
 import PypyrModel.Json
@@ -73,8 +80,82 @@ def loadedToJson : Loaded → Json
   | .file p => Json.mkObj [("file", Json.str (pathStr p))]
   | .custom l n par _ _ => Json.mkObj [("custom", Json.arr #[Json.str l, Json.str n, optPathJson par])]
 
+
+/-! ### `resolve.session`: sequences of look-ups through the warm pipeline cache -/
+
+def badSegDD (s : String) : Bool := s.isEmpty || s == "."
+
+def nameOfStrDD (s : String) : Except String Name :=
+  match s.splitOn "/" with
+  | "" :: rest => if rest.isEmpty || rest.any badSegDD then .error s!"name outside the domain: {s}" else pure (.abs rest)
+  | parts => if parts.any badSegDD then .error s!"name outside the domain: {s}" else pure (.rel parts)
+
+/-- follow `..` segments as the OS does: the directory being left must exist -/
+def walk (dirs : List Path) : Path → Path → Option Path
+  | acc, [] => some acc
+  | acc, ".." :: rest => if dirs.contains acc then walk dirs acc.dropLast rest else none
+  | acc, x :: rest => walk dirs (acc ++ [x]) rest
+
+def fsOfLists (cwd builtin : Path) (files dirs : List Path) : Fs :=
+  { cwd := cwd, builtin := builtin,
+    isFile := fun p => match walk ([] :: dirs) [] p with
+      | some q => files.contains q
+      | none => false,
+    dirExists := fun d => match walk ([] :: dirs) [] d with
+      | some q => dirs.contains q
+      | none => false }
+
+def filesDirs (j : Json) : Except String (List Path × List Path) := do
+  let files ← (← strList (← j.getObjVal? "files")).mapM pathOfStr
+  let dirs ← (← strList (← j.getObjVal? "dirs")).mapM pathOfStr
+  pure (files, dirs)
+
+def parseTotal (s : String) : Name :=
+  match nameOfStrDD s with
+  | .ok n => n
+  | .error _ => .rel ["?"]
+
+def sopOfJson (cwd builtin : Path) (j : Json) : Except String (SOp × List Path) := do
+  match (← j.getArr?).toList with
+  | [.str "req", obj, .str name, parent] =>
+    let _ ← nameOfStrDD name
+    pure (.req { obj := ← jsonNat? obj, nameStr := name, parent := ← optPath parent }, [])
+  | [.str "fs", f] =>
+    let (files, dirs) ← filesDirs f
+    pure (.fs (fsOfLists cwd builtin files dirs), dirs)
+  | [.str "clear"] => pure (.clear, [])
+  | [.str "noCache", .bool b] => pure (.noCache b, [])
+  | [.str "pyDir", .str d] => pure (.pyDir (← pathOfStr d), [])
+  | _ => .error "bad session op"
+
+/-- `Path.resolve()` on a symlink-free tree: drop `x/..` -/
+def normPath : Path → Path → Path
+  | acc, [] => acc
+  | acc, ".." :: rest => normPath acc.dropLast rest
+  | acc, x :: rest => normPath (acc ++ [x]) rest
+
+def resJson : Except String Path → Json
+  | .ok p => Json.mkObj [("ok", Json.str (pathStr (normPath [] p)))]
+  | .error e => Json.mkObj [("err", Json.str e)]
+
+def handleSession (j : Json) : Except String Json := do
+  let cwd ← pathOfStr (← (← j.getObjVal? "cwd").getStr?)
+  let builtin ← pathOfStr (← (← j.getObjVal? "builtin").getStr?)
+  let (files, dirs) ← filesDirs j
+  let nc ← (← j.getObjVal? "noCache").getBool?
+  let opsd ← (← (← j.getObjVal? "ops").getArr?).toList.mapM (sopOfJson cwd builtin)
+  let ops := opsd.map (·.1)
+  let fs0 := fsOfLists cwd builtin files dirs
+  let out := runSess parseTotal fs0 nc false (Sess.init []) ops
+  let paths := (runSessPath parseTotal fs0 nc (Sess.init []) ops).map fun x =>
+    Json.arr ((x.2.map (normPath [])).eraseDups.map fun p => Json.str (pathStr p)).toArray
+  pure (Json.mkObj [("results", Json.arr ((out.zip paths).map fun (x, sp) =>
+    (resJson x.1).setObjVal! "clean" (Json.bool x.2.1) |>.setObjVal! "cold" (resJson x.2.2)
+      |>.setObjVal! "sysPath" sp).toArray)])
+
 def handle (op : String) (j : Json) : Except String Json := do
   match op with
+  | "session" => handleSession j
   | "path" =>
     let fs ← fsOfJson j
     let name ← nameOfStr (← (← j.getObjVal? "name").getStr?)
